@@ -1211,6 +1211,7 @@ class Engine(object):
         if L is None:
             raise Unsupported('for loop over symbolic sequence at line %d needs a loop contract' % s.lineno)
         idx = L.index or '_k'
+        frame.store('_iter%d' % k, PList(seq) if isinstance(seq, SSeq) else seq)     # the iterated sequence, for invariants
         for g in L.ghost_pre:
             self.exec_ghost(g, frame)
         frame.store(idx, 0)
@@ -1263,6 +1264,8 @@ class Engine(object):
             return list(it)
         if isinstance(it, (SSeq, SStr, SEnc, SEncMap, PAbsSeq)):
             return it
+        if isinstance(it, SOpaque) and callable(self.c.env.get('__iter_opaque__')):
+            return self.c.env['__iter_opaque__'](self, it)
         if isinstance(it, PDict):
             return list(it.val.keys())
         if isinstance(it, (frozenset, set, dict, range)):
@@ -1310,7 +1313,8 @@ class Engine(object):
     def ex_Name(self, e, frame):
         name = e.id
         if name == '_out' and getattr(self, 'in_spec', False) and self.yields is not None:
-            return self.yields
+            # a value, not the live list: ghost snapshots (out0 = _out) must not alias what is yielded later
+            return PList(self.yields.val if isinstance(self.yields.val, SSeq) else list(self.yields.val))
         if frame.has(name):
             return frame.lookup(name)
         if name in self.c.env:
@@ -2596,6 +2600,10 @@ class Engine(object):
                 return True
             if isinstance(v, PExc) and isinstance(v.cls, type) and issubclass(v.cls, c):
                 return True
+            if isinstance(v, SOpaque) and self.c.env.get('__opaque_classes__', {}).get(v.ty.name) is not None:
+                oc = self.c.env['__opaque_classes__'][v.ty.name]
+                if isinstance(oc, type) and isinstance(c, type) and issubclass(oc, c):
+                    return True
         if is_sym(v) or isinstance(v, (PList, PDict, PObj, PExc, PFunc, PGen)):
             return False
         return isinstance(v, cls)
